@@ -4,13 +4,13 @@ package blobstore
 
 import (
 	"errors"
-	"runtime"
-	"sync"
 	"fmt"
 	"io"
 	"math/rand"
 	"os"
+	"runtime"
 	"sort"
+	"sync"
 
 	"github.com/uber-go/tally"
 
@@ -228,6 +228,10 @@ func run(c *eng.Ctx, mem bool) error {
 				c.W.Ev("Panic", "what", fmt.Sprint(r))
 			}
 		}()
+		if mem && t >= n-c.N(4, 12) {
+			storm(c, t, rng)
+			return
+		}
 		if mem && t%5 == 4 {
 			concurrent(c, t, rng)
 			return
@@ -286,6 +290,21 @@ func run(c *eng.Ctx, mem bool) error {
 			handles = append(handles, handle{len(handles) + 1, f})
 			return len(handles)
 		}
+		// one history in four starts with a scripted prefix on one key (any scope): the ban / completion / metadata
+		// combinations that purely random histories of this length rarely line up (op codes as in the switch below)
+		type forcedOp struct{ op, suf int }
+		var script []forcedOp
+		scriptKey := keys[rng.Intn(nk)]
+		if t%4 == 1 {
+			scripts := [][]forcedOp{
+				{{0, 0}, {80, 1}, {80, 0}, {65, 0}, {45, 0}, {85, 1}, {85, 0}, {94, 0}, {72, 0}}, // create, set fix+mov, ban, complete, get, list, unban
+				{{0, 0}, {65, 0}, {80, 1}, {45, 0}, {94, 0}, {85, 1}, {55, 0}, {0, 0}, {85, 1}},  // ban first, set fix, complete, list, get, delete, create, get
+				{{0, 0}, {45, 0}, {80, 1}, {65, 0}, {72, 0}, {94, 0}, {55, 0}, {35, 0}},          // complete, then fix metadata on a complete blob, ban/unban, delete, stat
+				{{0, 0}, {80, 1}, {45, 0}, {85, 1}, {80, 1}, {85, 1}, {91, 1}, {85, 1}, {94, 0}}, // fix dropped by completion, set again, delete metadata
+			}
+			script = scripts[rng.Intn(len(scripts))]
+		}
+		forceSuf := -1
 		steps := 40 + rng.Intn(40)
 		for i := 0; i < steps; i++ {
 			k := keys[rng.Intn(nk)]
@@ -294,6 +313,11 @@ func run(c *eng.Ctx, mem bool) error {
 				sc = storelib.BlobScopeAny
 			}
 			op := rng.Intn(100)
+			forceSuf = -1
+			if len(script) > 0 {
+				k, sc, op, forceSuf = scriptKey, storelib.BlobScopeAny, script[0].op, script[0].suf
+				script = script[1:]
+			}
 			switch {
 			case op < 18: // Create (+ write the content pattern through the returned handle)
 				sz := uint64(rng.Intn(int(capv) + 2))
@@ -365,11 +389,17 @@ func run(c *eng.Ctx, mem bool) error {
 				ev("Unban", "k", kname[k], "sc", scName[sc], "res", Classify(err))
 			case op < 83:
 				suf := sufs[rng.Intn(2)]
+				if forceSuf >= 0 {
+					suf = sufs[forceSuf]
+				}
 				v := 1 + rng.Intn(3)
 				err := s.SetMd(k, &vmd{Suffix: suf, V: v}, sc)
 				ev("SetMd", "k", kname[k], "s", sufName[suf], "v", v, "sc", scName[sc], "res", Classify(err))
 			case op < 90:
 				suf := sufs[rng.Intn(2)]
+				if forceSuf >= 0 {
+					suf = sufs[forceSuf]
+				}
 				m := &vmd{Suffix: suf}
 				ok, err := s.GetMd(k, m, sc)
 				v := 0
@@ -379,6 +409,9 @@ func run(c *eng.Ctx, mem bool) error {
 				ev("GetMd", "k", kname[k], "s", sufName[suf], "sc", scName[sc], "res", Classify(err), "v", v)
 			case op < 93:
 				suf := sufs[rng.Intn(2)]
+				if forceSuf >= 0 {
+					suf = sufs[forceSuf]
+				}
 				err := s.DelMd(k, suf, sc)
 				ev("DelMd", "k", kname[k], "s", sufName[suf], "sc", scName[sc], "res", Classify(err))
 			case op < 96:
@@ -552,4 +585,84 @@ func concurrent(c *eng.Ctx, t int, rng *rand.Rand) {
 		}(g)
 	}
 	wg.Wait()
+}
+
+// storm: rounds of REAL concurrency on one memory.Store: blob A fills the store and is complete (evictable); eight
+// goroutines hold handles on A and issue growing WriteAt calls while a fifth admits blob B, which evicts A.  After
+// all of them have finished, the state of every old handle, of the store and of its accounting is recorded once per
+// round (spec/store/MemStorm.tla).
+func storm(c *eng.Ctx, t int, rng *rand.Rand) {
+	const capv = 4096
+	ms, err := memory.NewStore(&memory.Config{CapacityBytes: capv, GOMEMLIMITBytes: 8 << 30}, tally.NoopScope)
+	if err != nil {
+		panic(err)
+	}
+	c.W.Reset(t, map[string]any{"cap": capv, "mem": true, "tracespec": "storm"})
+	rounds := c.N(1000, 1500)
+	for r := 0; r < rounds; r++ {
+		ka, kb := fmt.Sprintf("a%d", r), fmt.Sprintf("b%d", r)
+		fa, err := ms.Create(ka, capv)
+		if err != nil {
+			panic(err)
+		}
+		fa.Write(make([]byte, 8))
+		if err := ms.MarkComplete(ka); err != nil {
+			panic(err)
+		}
+		const nh = 8
+		hs := make([]rw, nh)
+		for i := range hs {
+			if hs[i], err = ms.Open(ka); err != nil {
+				panic(err)
+			}
+		}
+		var wg sync.WaitGroup
+		start := make(chan struct{})
+		for i := range hs {
+			wg.Add(1)
+			go func(i int) {
+				defer wg.Done()
+				<-start
+				for off := int64(8 + i); off < 8+1024; off += 4 { // every call extends the blob
+					if _, err := hs[i].WriteAt([]byte{1, 2, 3, 4}, off); err != nil {
+						return
+					}
+				}
+			}(i)
+		}
+		wg.Add(1)
+		go func() {
+			defer wg.Done()
+			<-start
+			if rng == nil {
+				runtime.Gosched()
+			}
+			if fb, err := ms.Create(kb, capv); err == nil {
+				fb.Close()
+			}
+		}()
+		close(start)
+		wg.Wait()
+		hasA, _ := ms.Has(ka)
+		hasB, _ := ms.Has(kb)
+		sizes, reads, writes := make([]int, nh), make([]string, nh), make([]string, nh)
+		for i, h := range hs {
+			sizes[i] = int(h.Size())
+			_, rerr := h.ReadAt(make([]byte, 1), 0)
+			reads[i] = Classify(rerr)
+			_, werr := h.WriteAt([]byte{9}, 0)
+			writes[i] = Classify(werr)
+		}
+		reserved := 0
+		if hasA {
+			reserved += capv
+		}
+		if hasB {
+			reserved += capv
+		}
+		c.W.Ev("Round", "hasA", hasA, "hasB", hasB, "sizes", sizes, "reads", reads, "writes", writes,
+			"used", int(ms.VerifUsed()), "reserved", reserved)
+		ms.Delete(ka)
+		ms.Delete(kb)
+	}
 }
